@@ -124,6 +124,24 @@ def prename(p, f):
     return r
 
 
+def psubst(p, sub):
+    """Substitute atoms by polynomials (sub: atom -> poly), recursively inside call arguments."""
+    r = {}
+    for m, c in p.items():
+        term = {(): c}
+        for a in m:
+            if a in sub:
+                f = sub[a]
+            elif a[0] == "call":
+                args = tuple(_freeze(psubst(dict(x), sub)) if _is_frozen_poly(x) else x for x in a[2])
+                f = patom(("call", a[1], args))
+            else:
+                f = patom(a)
+            term = pmul(term, f)
+        r = padd(r, term)
+    return r
+
+
 def _freeze(p):
     return tuple(sorted(p.items(), key=repr))
 
